@@ -702,3 +702,17 @@ Proof.
   { destruct Hp as [-> | ->]; [rewrite anchor_is in Ep|destruct marker_is as (m' & Em); rewrite Em in Ep]; cbn in Ep; inversion Ep; reflexivity. }
   subst s. rewrite E in H. apply Forall_app in H. destruct H as [_ H]. inversion H as [|? ? Hq _]. congruence.
 Qed.
+
+Theorem ws_insert_kinds : forall U, ascii_ok U -> forall (xb ws bb : list byte),
+  Forall ws_byte ws -> ws <> [] ->
+  (match bb with [] => True | a :: _ => (bz a < 128)%Z end) ->
+  no_partial_marker (map fst (decode_all xb)) ->
+  forall pre t post,
+    fst (lex_with U (xb ++ bb)) = pre ++ t :: post -> post <> [] -> tk_end t = length xb ->
+    tk_start t < tk_end t -> ~ unsafe (tk_kind t) ->
+    map tk_kind (fst (lex_with U (xb ++ ws ++ bb))) = map tk_kind (fst (lex_with U (xb ++ bb))).
+Proof.
+  intros U HU xb ws bb W N Hbb NP pre t post H1 Hpost Hend Hne Hsafe.
+  rewrite (ws_insert_bytes U HU xb ws bb W N Hbb NP pre t post H1 Hpost Hend Hne Hsafe), H1.
+  rewrite !map_app. cbn [map]. now rewrite map_kind_shift.
+Qed.
